@@ -188,6 +188,44 @@ pub fn iters<P: PType>(st: &MapSt<P>, _cx: &Cx) -> (Vec<Viol>, u64) {
         check_seq(&mut out, "IntoKeys::clone", g, f, &keys_only[i..]);
         let (g, f) = drain(iv.clone().map(|v| (0, 0, v)), lim);
         check_seq(&mut out, "IntoValues::clone", g, f, &vals_only[i..]);
+        // clone_from: into a default-constructed iterator, into an iterator over another map, and
+        // "rewinding" a further advanced iterator of the same traversal to this snapshot
+        {
+            let other: PrefixMap<P, u32> = map.iter().take(want.len() / 2).map(|(p, v)| (p.clone(), *v + 1)).collect();
+            let mut t = prefix_trie::map::Iter::<P, u32>::default();
+            t.clone_from(&it);
+            let (g, f) = drain(t.map(|(p, v)| obs(p, v)), lim);
+            check_seq(&mut out, "Iter::clone_from (default target)", g, f, &want[i..]);
+            let mut t = other.iter();
+            t.next();
+            t.clone_from(&it);
+            let (g, f) = drain(t.map(|(p, v)| obs(p, v)), lim);
+            check_seq(&mut out, "Iter::clone_from (target over another map)", g, f, &want[i..]);
+            let mut t = k.clone();
+            t.next();
+            t.clone_from(&k);
+            let (g, f) = drain(t.map(|p| obs(p, &0)), lim);
+            check_seq(&mut out, "Keys::clone_from", g, f, &keys_only[i..]);
+            for ahead in [1usize, 2, want.len()] {
+                let mut t = ii.clone();
+                for _ in 0..ahead {
+                    t.next();
+                }
+                t.clone_from(&ii);
+                let (g, f) = drain(t.map(|(p, v)| obs(&p, &v)), lim);
+                check_seq(&mut out, "IntoIter::clone_from (rewind)", g, f, &want[i..]);
+            }
+            let mut t = other.clone().into_iter();
+            t.clone_from(&ii);
+            let (g, f) = drain(t.map(|(p, v)| obs(&p, &v)), lim);
+            check_seq(&mut out, "IntoIter::clone_from (target over another map)", g, f, &want[i..]);
+            let mut t = map.clone().into_values();
+            t.next();
+            t.clone_from(&iv);
+            let (g, f) = drain(t.map(|v| (0, 0, v)), lim);
+            check_seq(&mut out, "IntoValues::clone_from", g, f, &vals_only[i..]);
+            n += 8;
+        }
         // the originals continue unaffected
         let (g, f) = drain(it.map(|(p, v)| obs(p, v)), lim);
         check_seq(&mut out, "Iter (after clone)", g, f, &want[i..]);
